@@ -120,6 +120,12 @@ def bind(chk: Check, tier: str, seed: int):
                 encoded_by_def[d["id"]] = encoded_by_def.get(d["id"], 0) + 1
             recs.append(o)
             meta.append((d["id"], tag))
+    # every key of every lookup table once, through an encodable definition (decode by table, encode by raw value)
+    for d, tag, payload in corpus.table_sweep(db, lambda d: d["encodable"]):
+        o = roundtrip(dec, enc, d, payload)
+        if o is not None:
+            recs.append(o)
+            meta.append((d["id"], tag))
     # every-code sweep (16 processes): identical round trips are only counted
     swept = identical = 0
     jobs = [(d, tier, seed + d["idx"]) for d in encodable]
